@@ -1677,12 +1677,13 @@ let reduce_normalized_coefficients_to_difficulty k d n normalized_coefficients =
     ops -> car -> car -> car list -> car list **)
 
 let extract_normalized_coefficients_from_difficulty k d n difficulty_coefficients =
-  imap (fun j gamma ->
-    k.odiv gamma
-      (k.omul
-        (k.omul (fzpow k n (Z.of_nat j))
-          (fzpow k (fz k (Zpos (XO XH))) (Z.sub (Z.of_nat j) (Zpos XH)))) d))
-    difficulty_coefficients
+  set0 k
+    (imap (fun j gamma ->
+      k.odiv gamma
+        (k.omul
+          (k.omul (fzpow k n (Z.of_nat j))
+            (fzpow k (fz k (Zpos (XO XH))) (Z.sub (Z.of_nat j) (Zpos XH)))) d))
+      difficulty_coefficients) difficulty_coefficients
 
 (** val reduce_normalized_convection_scale_to_difficulty :
     ops -> car -> car -> car -> car -> car **)
@@ -1737,6 +1738,22 @@ let extract_normalized_nonlinear_scales_from_difficulty k d n m nonlinear_diffic
                                                            (nth (S (S O))
                                                              nonlinear_difficulties
                                                              k.o0)) :: []))
+
+(** val wave_mode :
+    ops -> car -> car -> car -> car -> car -> car -> car -> bool -> car ->
+    car -> car * car **)
+
+let wave_mode k ii s c rho dt ep em is_dc h v =
+  let g = if k.oeqb rho k.o0 then k.o1 else rho in
+  let w = k.omul (k.omul (k.omul ii c) g) h in
+  let pos = k.omul s (k.oadd w v) in
+  let neg = k.omul s (k.osub w v) in
+  let pos' = k.omul ep pos in
+  let neg' = k.omul em neg in
+  let w' = k.omul s (k.oadd pos' neg') in
+  let v' = k.omul s (k.osub pos' neg') in
+  let h' = k.odiv w' (k.omul (k.omul ii c) g) in
+  ((if is_dc then k.oadd h' (k.omul dt v) else h'), v')
 
 (** val aff : z -> z -> z -> z **)
 
@@ -2229,6 +2246,21 @@ let run_sym a =
          | XH -> sym_advection cQ (crs (firstn d p)) d0)
       | _ -> poly_sym cQ (crs p) d0) :: [])
 
+(** val run_wave : q list -> q list **)
+
+let run_wave a =
+  let g = fun i -> cr (getq a i) in
+  let cx0 = fun i -> { re = (qqc (getq a i)); im = (qqc (getq a (S i))) } in
+  let r =
+    wave_mode cQ ciQ (g O) (g (S O)) (g (S (S O))) (g (S (S (S O))))
+      (Obj.magic cx0 (S (S (S (S O)))))
+      (Obj.magic cx0 (S (S (S (S (S (S O)))))))
+      (qb (getq a (S (S (S (S (S (S (S (S O))))))))))
+      (Obj.magic cx0 (S (S (S (S (S (S (S (S (S O))))))))))
+      (Obj.magic cx0 (S (S (S (S (S (S (S (S (S (S (S O))))))))))))
+  in
+  put_cx ((fst r) :: ((snd r) :: []))
+
 (** val qcs : q list -> car list **)
 
 let qcs l =
@@ -2393,8 +2425,12 @@ let run id a =
          | XH -> run_c02 sub0 a)
       | XH ->
         (match sub0 with
-         | Zpos p0 -> (match p0 with
-                       | XH -> run_sym a
-                       | _ -> [])
+         | Zpos p0 ->
+           (match p0 with
+            | XI _ -> []
+            | XO p1 -> (match p1 with
+                        | XH -> run_wave a
+                        | _ -> [])
+            | XH -> run_sym a)
          | _ -> []))
    | _ -> [])
